@@ -98,7 +98,7 @@ func memExec(id, mode string, seed int64, ops []memOp) *trace.Scenario {
 				ev = []any{"r", o.a, int(m.M.Read(uint16(o.a)))}
 				busDone(m)
 			case "hot":
-				hotState(m, rand.New(rand.NewSource(int64(o.a)<<8|int64(o.v))))
+				hotState(m, rand.New(rand.NewSource(int64(o.a)<<8|int64(o.v))), o.v%2 == 1)
 				ev = []any{"hot", o.a, o.v}
 			case "tick":
 				for i := 0; i < o.a; i++ {
@@ -139,7 +139,7 @@ func memExec(id, mode string, seed int64, ops []memOp) *trace.Scenario {
 // hotState puts the machine into a state in which register writes have the
 // most side effects to get wrong: sound on with channels running, the timer
 // within a few cycles of an overflow, a serial transfer under way.
-func hotState(m *machine.Machine, rng *rand.Rand) {
+func hotState(m *machine.Machine, rng *rand.Rand, sweepEdge bool) {
 	w := func(a, v int) { m.M.Write(uint16(a), uint8(v)); busDone(m) }
 	if rng.Intn(4) != 0 {
 		w(0xff26, 0x80)
@@ -166,8 +166,16 @@ func hotState(m *machine.Machine, rng *rand.Rand) {
 				w(base+1, rng.Intn(56))
 				w(base+2, 0x08|rng.Intn(256))
 			}
-			w(base+3, rng.Intn(256))
-			w(base+4, 0x80|rng.Intn(0x48)&0x47)
+			lo, hi := rng.Intn(256), 0x80|rng.Intn(0x48)&0x47
+			if ch == 0 && sweepEdge {
+				// channel 1 in add mode with a frequency just below the overflow: hh00 passes the check at the trigger,
+				// hhFF would not (a write to NR13 must not run the check)
+				sh := 1 + lo%7
+				w(base, (1+lo%5)<<4|sh)
+				lo, hi = 0, hi&0xc0|[]int{5, 6, 7, 7, 7, 7, 7}[sh-1]
+			}
+			w(base+3, lo)
+			w(base+4, hi)
 		}
 	}
 	if rng.Intn(3) != 0 {
@@ -492,7 +500,7 @@ func memGen(c *Ctx) {
 			flush()
 		}
 		// hot states: sound channels running, the timer about to overflow, a serial transfer under way
-		nh := 4
+		nh := 6
 		if c.Thorough() {
 			nh = 48
 		}
